@@ -6,6 +6,7 @@ import (
 	"io"
 	"net"
 	"sync"
+	"sync/atomic"
 	"time"
 
 	"github.com/containerd/nri/pkg/net/multiplex"
@@ -50,7 +51,15 @@ type scriptObs struct {
 	Res  []actRes  `json:"res"`
 	Sent [2]string `json:"sent"` // hex of the bytes each side's trunk really carried
 	Fail string    `json:"fail,omitempty"`
+	Hung bool      `json:"hung,omitempty"` // some call did not return within the bound
 }
+
+// curBound is the bound of the next call (nanoseconds): opBound, afterHangBound once a call of the
+// current scenario has hung.  Scenarios run one after the other inside a child process.
+var curBound atomic.Int64
+
+func bound() time.Duration { return time.Duration(curBound.Load()) }
+func hangSeen()            { curBound.Store(int64(afterHangBound)) }
 
 // payload of scripted Write number seq of a side (arbitrary bytes, travels as hex)
 func spayload(side, seq, size int) []byte {
@@ -84,7 +93,8 @@ func bounded(f func() actRes) actRes {
 	select {
 	case r := <-ch:
 		return r
-	case <-time.After(opBound):
+	case <-time.After(bound()):
+		hangSeen()
 		return actRes{Kind: "timeout"}
 	}
 }
@@ -117,9 +127,10 @@ func background(f func() actRes) (wait func() actRes, returned func() bool) {
 		}
 	}
 	return func() actRes {
-			if poll(opBound) {
+			if poll(bound()) {
 				return *got
 			}
+			hangSeen()
 			return actRes{Kind: "timeout"}
 		}, func() bool {
 			return poll(30 * time.Millisecond)
@@ -128,6 +139,8 @@ func background(f func() actRes) (wait func() actRes, returned func() bool) {
 
 func execScript(s *scriptScn) *scriptObs {
 	o := &scriptObs{Res: make([]actRes, len(s.Acts))}
+	curBound.Store(int64(opBound))
+	defer func() { o.Hung = bound() != opBound }()
 	ca, cb, err := connPair(s.Transport)
 	if err != nil {
 		o.Fail = "transport: " + err.Error()
@@ -319,7 +332,8 @@ func execScript(s *scriptScn) *scriptObs {
 			select {
 			case <-recs[side].closedC:
 				r = actRes{Kind: "ok"}
-			case <-time.After(opBound):
+			case <-time.After(bound()):
+				hangSeen()
 				r = actRes{Kind: "timeout", Err: "the Mux did not close its trunk"}
 			}
 		case "unblock":
